@@ -7,7 +7,7 @@ from refids import ref_res, ref_decode
 LEAN_MODULES = ['A5.Props.C01']
 LEVEL = 'other'
 EXPLANATION = ('PROVED (Lean, on the executable model of lonlat_to_cell — a full IEEE-double port of cell.py, tiling, Hilbert curve and the projection stack): resolution -1 gives the world cell; for every pair of doubles and every '
-               'resolution 0..29 a returned id is a valid id of exactly that resolution; the estimator index is in range for ANY input and ANY scalar type; every estimate is a well-formed cell; 26 samples are inspected. '
+               'resolution 0..29 a returned id is a valid id of exactly that resolution; the estimator index is in range for ANY input and ANY scalar type; every estimate is a well-formed cell; 26 samples are inspected; DECISION LOGIC (`contains_or_fallback`): at resolutions 2..29 the returned id either passes the library\'s own planar containment test for the query point itself, or none of the 26 sampled candidates passes it and the id is one of them (nearest-miss fallback). '
                'TIED: the model is compared bit for bit with lonlat_to_cell on adversarial points every run. '
                'ASSUMED (numeric; exercised each run by an independent winding-number oracle in a gnomonic chart, pole-safe closed-form authalic latitude): H-contain the published ring of the returned cell encloses the point up to 1e-6 cell widths; '
                'H-noraise no float callee raises; H-periodic 360-degree periodicity.')
